@@ -272,6 +272,17 @@ def actor_exits(ctx):
                     tested = {st2 for st2 in _locals_read(a, e.label[2])}
                     if set(flag_locals) & tested:
                         ok = True
+        # ... and on *every* outcome of the build: the arm may go round the loop again only past the false edge of that flag test (a build that completes,
+        # is skipped or fails after the termination was received must leave too, not only a cancelled one)
+        for ba in build_result_arms(a):
+            back = [e for e in a.edges if e.src in ba.region and e.dst in blks and e.dst not in ba.region]
+            Gfalse = set()
+            for e in a.edges:
+                if e.src in ba.region and e.label and e.label[0] == "bool" and e.label[1] is False and e.label[2] is not None and set(flag_locals) & set(_locals_read(a, e.label[2])):
+                    Gfalse |= a.dominated_by_edge(e) | {e.dst}
+            stays = [e for e in back if e.src not in Gfalse and e.dst not in Gfalse]
+            if stays:
+                ok = False
         # staying paths must be exactly those that have a build in flight (and cancelled it)
         ctx.check(bool(cancels) and bool(flag_locals) and ok, f"{lab}/terminates", [site(a, c[0]) for c in cancels] or [a.loc(arm.edge.dst)],
                   "on termination the actor neither leaves its loop nor (cancels the running build, records the termination and leaves when the build result arrives)")
